@@ -414,3 +414,368 @@ Proof.
 Qed.
 
 End Silent.
+
+(* ------------------------------------------------------------------------------------------ *)
+(* 3. whole polls on a silent bus                                                               *)
+
+Section SilentPolls.
+Variable A : Type.
+Variable ops : app_ops A.
+Hypothesis Happs : apps_total A ops.
+Notation W := (world A).
+
+(* a poll of an online station that needs no connectivity prologue, nothing in the receive buffer, the
+   PHY busy at most while the station itself expects its transmission to last *)
+Lemma silent_body f now b (apps : list A) f' o a c :
+  poll ops f now (mkPhyIn b []) apps = Ok (f', o, a, c) ->
+  f_conn f = ConnOnline -> online_entry_kind (kind_of (f_state f)) = false ->
+  (b = true -> predicted f now = true) ->
+  (predicted f now = true /\ f' = mark_bus_activity f now /\ tx o = None) \/
+  (predicted f now = false /\ b = false /\
+   exists w', dispatch A ops f now (mkWorld [] None apps [] []) = Ok (f', w') /\ tx o = w_tx w').
+Proof.
+  intros H Hc Hk Hb. apply poll_inv in H. destruct H as [w' [H [-> _]]]. cbn [tx_busy rx tx] in *.
+  rewrite poll_inner_online in H by assumption. unfold body in H.
+  destruct (predicted f now) eqn:Ep.
+  - rewrite orb_true_r in H. injection H as <- <-. left. repeat split; reflexivity.
+  - destruct b; [specialize (Hb eq_refl); discriminate Hb|]. cbn [orb] in H.
+    unfold check_for_bus_activity in H. cbn [w_rx length] in H.
+    destruct (Nat.ltb_spec (f_pending f) 0) as [C|_]; [lia|].
+    right. split; [reflexivity|]. split; [reflexivity|]. exists w'. split; [exact H|reflexivity].
+Qed.
+
+Lemma lba_after f now b (apps : list A) f' o a c l :
+  poll ops f now (mkPhyIn b []) apps = Ok (f', o, a, c) -> (b = true -> predicted f now = true) ->
+  f_lba f = Some l ->
+  f_p f' = f_p f /\
+  match tx o with
+  | Some wire => f_lba f' = Some (now + dur (f_p f) (length wire))
+  | None => f_lba f' = Some l \/ rst now f'
+  end.
+Proof.
+  intros H Hb Hl. destruct (poll_bk A ops now f _ apps f' o a c H) as (_ & _ & Hp & L & _).
+  split; [exact Hp|]. cbn [tx_busy rx] in L. destruct (tx o); [tauto|].
+  destruct L as [L|[R _]]; [left|right; exact R]. rewrite Hl in L. cbn [gv] in L.
+  destruct L as [-> | [-> | ([M|M] & ->)]]; try reflexivity.
+  - specialize (Hb M). unfold predicted in Hb. rewrite Hl in Hb. apply Z.leb_le in Hb. cbn [gv]. f_equal. lia.
+  - contradiction M. reflexivity.
+Qed.
+
+Lemma mark_state f now : f_state (mark_bus_activity f now) = f_state f /\ f_ring (mark_bus_activity f now) = f_ring f.
+Proof. destruct (mark_bus_activity_sblp f now) as [_ [Hr [_ [_ [Hs _]]]]]. split; assumption. Qed.
+
+Lemma rst_state now f' : rst now f' -> f_state f' = Offline.
+Proof. intros [H _]. exact H. Qed.
+
+(* ---- the token chain: token-holding states, PassToken, CheckTokenPass ---- *)
+
+Definition mu_B (f : fdl) : nat :=
+  let m := others (f_ring f) (ts f) in
+  match f_state f with
+  | CheckTokenPass a => 3 * m + 4 - att_index a
+  | PassToken _ a => 3 * m + 5 - att_index a
+  | _ => 3 * m + 5
+  end.
+
+Definition chainB (s : state) : Prop := have_token s = true \/ in_pass s = true.
+
+Definition InvB (p0 : params) (n : nat) (f : fdl) : Prop :=
+  Rep n f /\ f_conn f = ConnOnline /\ f_lba f <> None /\ f_p f = p0 /\ chainB (f_state f).
+
+Lemma att_index_pos a : (1 <= att_index a <= 3)%nat.
+Proof. destruct a; cbn; lia. Qed.
+
+(* a token-holding state after a silent poll *)
+Lemma hold_poll n f now b (apps : list A) f' o a c :
+  Rep n f -> have_token (f_state f) = true -> f_conn f = ConnOnline ->
+  (b = true -> predicted f now = true) ->
+  poll ops f now (mkPhyIn b []) apps = Ok (f', o, a, c) ->
+  exists w' : W, tx o = w_tx w' /\ hold_out A f f' w'.
+Proof.
+  intros R Hh Hc Hb H.
+  assert (Hk : online_entry_kind (kind_of (f_state f)) = false) by (destruct (f_state f); try discriminate Hh; reflexivity).
+  destruct (silent_body f now b apps f' o a c H Hc Hk Hb) as [[_ [-> Ht]]|[_ [_ [w' [Hd Ht]]]]].
+  - exists (mkWorld [] None apps [] []). split; [exact Ht|]. left. destruct (mark_state f now) as [-> _]. exact Hh.
+  - exists w'. split; [exact Ht|]. unfold dispatch in Hd.
+    destruct (f_state f) as [ | | | |tk fa fcd|st|addr tk fa| | |a0] eqn:Es; try discriminate Hh; cbn [kind_of poll_dispatch] in Hd.
+    + exact (do_use_token_silent A ops f now (mkWorld [] None apps [] []) f' w' tk fa fcd Es eq_refl Hd).
+    + exact (do_claim_token_silent A f now (mkWorld [] None apps [] []) f' w' st Es eq_refl eq_refl Hd).
+    + exact (do_await_data_response_silent A ops f now (mkWorld [] None apps [] []) f' w' addr tk fa Es eq_refl eq_refl Hd).
+    + exact (do_await_status_response_silent A f now (mkWorld [] None apps [] []) f' w' a0 Es eq_refl eq_refl Hd).
+Qed.
+
+(* PassToken is left as soon as the synchronisation pause is over *)
+Lemma pass_wait_timing f now b (apps : list A) f' o a c dg att l :
+  f_state f = PassToken dg att -> f_conn f = ConnOnline -> f_lba f = Some l ->
+  (b = true -> predicted f now = true) ->
+  poll ops f now (mkPhyIn b []) apps = Ok (f', o, a, c) ->
+  kind_of (f_state f') = KPassToken -> now <= l + p_bits_to_time (f_p f) sync_pause_bits.
+Proof.
+  intros Es Hc Hl Hb H Hk. pose proof (sync_nonneg f) as Hs.
+  destruct (silent_body f now b apps f' o a c H Hc ltac:(rewrite Es; reflexivity) Hb) as [[Hp _]|[_ [_ [w' [Hd _]]]]].
+  - unfold predicted in Hp. rewrite Hl in Hp. apply Z.leb_le in Hp. lia.
+  - unfold dispatch in Hd. rewrite Es in Hd. cbn [kind_of poll_dispatch] in Hd.
+    destruct (Z.le_gt_cases now (l + p_bits_to_time (f_p f) sync_pause_bits)) as [C|C]; [exact C|].
+    exfalso. apply (do_pass_token_nowait A f now _ f' w' l Hd Hl); [lia|exact Hk].
+Qed.
+
+Lemma encode_token_len da sa : length (encode_token da sa) = 3%nat.
+Proof. reflexivity. Qed.
+
+Lemma stepB p0 n f now b (apps : list A) :
+  InvB p0 n f -> length apps = n -> time_ok now -> (b = true -> predicted f now = true) ->
+  exists f' o apps' c, poll ops f now (mkPhyIn b []) apps = Ok (f', o, apps', c) /\ length apps' = n /\ Rep n f' /\
+    ((now <= gv now (f_lba f) + slot_time p0 /\ InvB p0 n f' /\ mu_B f' = mu_B f /\ f_lba f' = Some (gv now (f_lba f)))
+     \/ have_token (f_state f') = true
+     \/ (InvB p0 n f' /\ (mu_B f' < mu_B f)%nat /\
+         exists l', f_lba f' = Some l' /\ l' <= Z.max (gv now (f_lba f)) (now + dur p0 3))).
+Proof.
+  intros (R & Hc & Hl & Hp0 & Hch) Hlen Tn Hb. subst n.
+  destruct (poll_rep_step A ops Happs f now (mkPhyIn b []) apps R Tn ltac:(constructor)) as (f' & o & apps' & c & E & R' & Hlen').
+  exists f', o, apps', c. split; [exact E|]. split; [exact Hlen'|]. split; [exact R'|].
+  destruct (f_lba f) as [l|] eqn:El; [|contradiction Hl; reflexivity]. cbn [gv].
+  destruct (lba_after f now b apps f' o apps' c l E Hb El) as [Hp' La].
+  pose proof (Rep_ts _ _ R) as Hts. pose proof (rep_ring _ _ R) as Rr. pose proof (rep_ring _ _ R') as Rr'.
+  assert (Hts' : ts f' = ts f) by (apply ts_p; exact Hp').
+  rewrite Hts' in Rr'.
+  assert (Hts125 : 0 <= ts f <= 125) by lia.
+  assert (Hns : 0 <= r_ns (f_ring f) < 128) by (apply (ring_ok_ns _ _ Rr); lia).
+  pose proof (bv_slot _ _ R) as Hslot. rewrite Hp0 in Hslot.
+  pose proof (sync_le_slot _ (rep_p _ _ R)) as Hss. rewrite Hp0 in Hss.
+  (* building InvB for the successor state *)
+  assert (HInv : in_pass (f_state f') = true -> f_lba f' <> None -> InvB p0 (length apps) f').
+  { intros Hip Hl'. split; [exact R'|]. split; [apply (Rep_online _ _ R'); destruct (f_state f'); try discriminate Hip; discriminate|].
+    split; [exact Hl'|]. split; [congruence|right; exact Hip]. }
+  destruct Hch as [Hh|Hip].
+  - (* token-holding *)
+    destruct (hold_poll _ f now b apps f' o apps' c R Hh Hc Hb E) as [w' [Htx Ho]].
+    assert (Hmu : mu_B f = (3 * others (f_ring f) (ts f) + 5)%nat).
+    { unfold mu_B. destruct (f_state f); try discriminate Hh; reflexivity. }
+    destruct Ho as [Hg|[[dg [Hs [Hn Hr]]]|[Hs [Hw Hwit]]]].
+    + right. left. exact Hg.
+    + right. right. rewrite Htx, Hn in La.
+      assert (Hl' : f_lba f' = Some l).
+      { destruct La as [La|La]; [exact La|]. apply rst_state in La. rewrite Hs in La. discriminate La. }
+      split; [apply HInv; [rewrite Hs; reflexivity|rewrite Hl'; discriminate]|].
+      split; [|exists l; split; [exact Hl'|lia]].
+      rewrite Hmu. unfold mu_B. rewrite Hs, Hr, Hts'. cbn. lia.
+    + right. right. rewrite Htx, Hw, encode_token_len, Hp0 in La.
+      split; [apply HInv; [rewrite Hs; reflexivity|rewrite La; discriminate]|].
+      split; [|eexists; split; [exact La|lia]].
+      pose proof (others_witness _ _ _ _ Rr Hts125 (proj1 Hns) Hwit) as Hle.
+      rewrite Hmu. unfold mu_B. rewrite Hs, Hts'. cbn. lia.
+  - destruct (f_state f) as [ | | | | | | |dg att|att| ] eqn:Es; try discriminate Hip.
+    + (* PassToken *)
+      destruct (pass_token_poll A ops f now _ apps f' o apps' c dg att Es E) as [_ [_ [_ [_ D]]]].
+      assert (Hmu : mu_B f = (3 * others (f_ring f) (ts f) + 5 - att_index att)%nat) by (unfold mu_B; rewrite Es; reflexivity).
+      destruct D as [[Htx [Hs Hr]]|[[addr [_ [_ [Hs _]]]]|[r' [Hwit [Hr [Htx Hs]]]]]].
+      * left. rewrite Htx in La.
+        assert (Hl' : f_lba f' = Some l).
+        { destruct La as [La|La]; [exact La|]. apply rst_state in La. rewrite Hs in La. discriminate La. }
+        split.
+        { pose proof (pass_wait_timing f now b apps f' o apps' c dg att l Es Hc El Hb E ltac:(rewrite Hs; reflexivity)) as Ht.
+          rewrite Hp0 in Ht. lia. }
+        split; [apply HInv; [rewrite Hs; reflexivity|rewrite Hl'; discriminate]|].
+        split; [|exact Hl']. unfold mu_B. rewrite Hs, Hr, Hts', Es. reflexivity.
+      * right. left. rewrite Hs. reflexivity.
+      * destruct (r_ns r' =? ts f) eqn:Ens; [right; left; rewrite Hs; reflexivity|].
+        right. right. rewrite Htx, encode_token_len, Hp0 in La.
+        split; [apply HInv; [rewrite Hs; reflexivity|rewrite La; discriminate]|].
+        split; [|eexists; split; [exact La|lia]].
+        pose proof (others_witness _ _ _ _ Rr Hts125 (proj1 Hns) Hwit) as Hle.
+        pose proof (att_index_pos att).
+        rewrite Hmu. unfold mu_B. rewrite Hs, Hts', Hr. lia.
+    + (* CheckTokenPass *)
+      destruct (check_pass_poll A ops f now _ apps f' o apps' c att Es E) as [_ [_ [_ D]]].
+      assert (Hmu : mu_B f = (3 * others (f_ring f) (ts f) + 4 - att_index att)%nat) by (unfold mu_B; rewrite Es; reflexivity).
+      pose proof (check_pass_no_wait A ops f now _ apps f' o apps' c att Es (rep_p _ _ R) E) as Hnw.
+      destruct (slot_expired f now (mkPhyIn b [])) eqn:Ex.
+      * destruct D as [_ [r1 [Hrm [[_ [Hs _]]|[r' [Hwit [Hr [Htx Hs]]]]]]]]; [rewrite Hs in Hnw; contradiction Hnw; reflexivity|].
+        destruct (r_ns r' =? ts f) eqn:Ens; [right; left; rewrite Hs; reflexivity|].
+        right. right. rewrite Htx, encode_token_len, Hp0 in La.
+        split; [apply HInv; [rewrite Hs; reflexivity|rewrite La; discriminate]|].
+        split; [|eexists; split; [exact La|lia]].
+        (* the measure *)
+        assert (Hr1 : ring_ok r1 (ts f) /\ (others r1 (ts f) <= others (f_ring f) (ts f))%nat /\
+                      (check_pass_removes att = true -> r_ns (f_ring f) <> ts f -> (others r1 (ts f) < others (f_ring f) (ts f))%nat)).
+        { destruct (check_pass_removes att).
+          - destruct (remove_station_ring_ok _ _ _ Rr ltac:(lia) Hns) as [r1' [E1 R1]].
+            rewrite Hrm in E1. injection E1 as <-.
+            destruct (others_remove _ _ _ Rr ltac:(lia) Hrm) as [Hle Hlt]. split; [exact R1|]. split; [exact Hle|intros _; exact Hlt].
+          - subst r1. split; [exact Rr|]. split; [lia|intros C; discriminate C]. }
+        destruct Hr1 as [R1 [Hle1 Hlt1]].
+        assert (Hns1 : 0 <= r_ns r1 < 128) by (apply (ring_ok_ns _ _ R1); lia).
+        pose proof (others_witness _ _ _ _ R1 Hts125 (proj1 Hns1) Hwit) as Hle.
+        rewrite Hr in Rr'.
+        assert (Hpos : others r' (ts f) <> 0%nat).
+        { intros C. apply (others_zero_ns _ _ Rr') in C. rewrite C, Z.eqb_refl in Ens. discriminate Ens. }
+        rewrite Hmu. unfold mu_B. rewrite Hs, Hts', Hr.
+        destruct att; cbn [check_pass_next att_index check_pass_removes] in *; try lia.
+        destruct (Z.eq_dec (r_ns (f_ring f)) (ts f)) as [Eself|Eself].
+        -- apply (ns_self_others _ _ Rr) in Eself. lia.
+        -- specialize (Hlt1 eq_refl Eself). lia.
+      * destruct D as [Htx [_ D]]. left. rewrite Htx in La.
+        assert (Hst : f_state f' = CheckTokenPass att /\ f_ring f' = f_ring f).
+        { cbn [tx_busy rx decode_spec] in D. destruct (b || predicted f now); tauto. }
+        destruct Hst as [Hs Hr].
+        assert (Hl' : f_lba f' = Some l).
+        { destruct La as [La|La]; [exact La|]. apply rst_state in La. rewrite Hs in La. discriminate La. }
+        split.
+        { unfold slot_expired, lba_seen, predicted in Ex. cbn [tx_busy rx length] in Ex. rewrite El in Ex.
+          destruct (Nat.ltb_spec (f_pending f) 0) as [C|_]; [lia|]. rewrite Hp0 in Ex.
+          destruct (Z.leb_spec now l) as [C|C]; [lia|].
+          destruct b; [specialize (Hb eq_refl); unfold predicted in Hb; rewrite El in Hb; apply Z.leb_le in Hb; lia|].
+          cbn [negb andb] in Ex. apply Z.ltb_ge in Ex. lia. }
+        split; [apply HInv; [rewrite Hs; reflexivity|rewrite Hl'; discriminate]|].
+        split; [|exact Hl']. unfold mu_B. rewrite Hs, Hr, Hts', Es. reflexivity.
+Qed.
+
+
+(* ---- the idle chain: Offline (being set online), ListenToken, ActiveIdle ---- *)
+
+Definition chainA (s : state) : Prop :=
+  match s with Offline | ListenToken _ _ | ActiveIdle _ _ _ => True | _ => False end.
+
+Definition InvA (p0 : params) (n : nat) (f : fdl) : Prop :=
+  Rep n f /\ f_conn f = ConnOnline /\ (f_lba f = None -> f_state f = Offline) /\ f_p f = p0 /\ chainA (f_state f).
+
+Definition mu_A (f : fdl) : nat := idle_rank (f_state f).
+
+Lemma slot_le_timeout p : builder_valid p -> slot_time p <= token_lost_timeout p.
+Proof.
+  intros B. pose proof (bv_ranges _ B) as Hr. unfold slot_time, token_lost_timeout, p_bits_to_time.
+  apply C01Proofs.btt_mono. unfold token_lost_base, token_lost_per_addr. nia.
+Qed.
+
+Lemma offline_poll f now b (w : W) :
+  f_conn f = ConnOnline -> f_state f = Offline ->
+  poll_inner ops f now b w = body A ops (set_st f (ListenToken None 0)) now b (note A w (TTrans KOffline KListenToken)).
+Proof.
+  intros Hc Hs. unfold poll_inner. rewrite Hc, Hs. cbn [kind_of online_entry_kind].
+  unfold trans, transition_listen_token, assert_kind. rewrite Hs. cbn [kind_of may_transition_listen_token bind].
+  apply body_eq.
+Qed.
+
+Lemma rank1_chainA s : idle_rank s = 1%nat -> chainA s.
+Proof. destruct s as [ | |[x|] y|[x|] y z| | | | | | ]; cbn; try discriminate; intros _; exact I. Qed.
+
+Lemma stepA p0 n f now b (apps : list A) :
+  InvA p0 n f -> length apps = n -> time_ok now -> (b = true -> predicted f now = true) ->
+  exists f' o apps' c, poll ops f now (mkPhyIn b []) apps = Ok (f', o, apps', c) /\ length apps' = n /\ Rep n f' /\
+    ((now <= gv now (f_lba f) + token_lost_timeout p0 /\ InvA p0 n f' /\ mu_A f' = mu_A f /\ f_lba f' = Some (gv now (f_lba f)))
+     \/ have_token (f_state f') = true
+     \/ (InvA p0 n f' /\ (mu_A f' < mu_A f)%nat /\
+         exists l', f_lba f' = Some l' /\ l' <= Z.max (gv now (f_lba f)) (now + dur p0 6))).
+Proof.
+  intros (R & Hc & Hl & Hp0 & Hch) Hlen Tn Hb. subst n.
+  destruct (poll_rep_step A ops Happs f now (mkPhyIn b []) apps R Tn ltac:(constructor)) as (f' & o & apps' & c & E & R' & Hlen').
+  exists f', o, apps', c. split; [exact E|]. split; [exact Hlen'|]. split; [exact R'|].
+  destruct (poll_bk A ops now f _ apps f' o apps' c E) as (_ & _ & Hp' & _).
+  pose proof (sync_le_slot _ (rep_p _ _ R)) as Hss. pose proof (slot_le_timeout _ (rep_p _ _ R)) as Hst.
+  rewrite Hp0 in Hss, Hst. pose proof (sync_nonneg f) as Hsn. rewrite Hp0 in Hsn.
+  assert (HInv : chainA (f_state f') -> f_state f' <> Offline -> f_lba f' <> None -> InvA p0 (length apps) f').
+  { intros Hca Hno Hl'. split; [exact R'|].
+    split; [apply (Rep_online _ _ R'); destruct (f_state f'); cbn in Hca; try contradiction; try discriminate; contradiction Hno; reflexivity|].
+    split; [intros C; contradiction|]. split; [congruence|exact Hca]. }
+  (* the result of a state function of the idle chain, for a station g that is f up to the prologue *)
+  assert (Hout : forall g (w' : W) l, chainA (f_state g) -> f_state g <> Offline -> f_p g = f_p f -> f_lba g = f_lba f -> f_lba f = Some l \/ (f_lba f = None /\ l = now) ->
+            (match tx o with Some wire => f_lba f' = Some (now + dur (f_p f) (length wire)) | None => f_lba f' = Some l \/ rst now f' end) ->
+            tx o = w_tx w' -> (idle_rank (f_state g) <= mu_A f)%nat ->
+            (idle_rank (f_state g) = mu_A f -> f_state g = f_state f) ->
+            idle_out A g now f' w' ->
+            (now <= gv now (f_lba f) + token_lost_timeout p0 /\ InvA p0 (length apps) f' /\ mu_A f' = mu_A f /\ f_lba f' = Some (gv now (f_lba f)))
+            \/ have_token (f_state f') = true
+            \/ (InvA p0 (length apps) f' /\ (mu_A f' < mu_A f)%nat /\
+                exists l', f_lba f' = Some l' /\ l' <= Z.max (gv now (f_lba f)) (now + dur p0 6))).
+  { intros g w' l Hcg Hgo Hpg Hlg Hll La Htx Hrk Hrk' Ho.
+    assert (Hgv : gv now (f_lba f) = l) by (destruct Hll as [-> |[-> ->]]; reflexivity).
+    rewrite Hgv.
+    destruct Ho as [Hk|Hs Hn Ht|wire Hr2 Hr1 Hw Hlen6].
+    - right. left. apply kind_claim_have. exact Hk.
+    - rewrite Htx, Hn in La.
+      assert (Hl' : f_lba f' = Some l).
+      { destruct La as [La|La]; [exact La|]. apply rst_state in La. rewrite Hs in La. contradiction. }
+      assert (Hca : chainA (f_state f')).
+      { rewrite Hs. exact Hcg. }
+      destruct (Nat.eq_dec (idle_rank (f_state g)) (mu_A f)) as [Heq|Hne].
+      + left. rewrite Hlg, Hgv, Hpg, Hp0 in Ht.
+        split; [destruct Ht as [Ht|Ht]; lia|].
+        split; [apply HInv; [exact Hca|rewrite Hs; exact Hgo|rewrite Hl'; discriminate]|].
+        split; [unfold mu_A; rewrite Hs; exact Heq|exact Hl'].
+      + right. right.
+        split; [apply HInv; [exact Hca|rewrite Hs; exact Hgo|rewrite Hl'; discriminate]|].
+        split; [unfold mu_A at 1; rewrite Hs; lia|]. exists l. split; [exact Hl'|lia].
+    - right. right. rewrite Htx, Hw, Hlen6, Hp0 in La.
+      split; [apply HInv; [apply rank1_chainA; exact Hr1| |rewrite La; discriminate]|].
+      + intros C. rewrite C in Hr1. discriminate Hr1.
+      + split; [unfold mu_A at 1; rewrite Hr1; lia|]. eexists. split; [exact La|lia]. }
+  destruct (f_state f) as [ | |sr cc|sr nps cc| | | | | | ] eqn:Es; cbn in Hch; try contradiction.
+  - (* Offline: the poll takes the station online *)
+    pose proof E as E0. apply poll_inv in E0. destruct E0 as [w' [E0 [-> _]]]. cbn [tx_busy rx tx] in *.
+    rewrite (offline_poll f now b _ Hc Es) in E0. unfold body in E0.
+    set (g := set_st f (ListenToken None 0)) in *.
+    assert (Hpg : predicted g now = predicted f now) by reflexivity. rewrite Hpg in E0.
+    destruct (predicted f now) eqn:Ep.
+    + rewrite orb_true_r in E0. injection E0 as <- <-.
+      unfold predicted in Ep. destruct (f_lba f) as [l|] eqn:El; [|discriminate Ep]. apply Z.leb_le in Ep. cbn [gv].
+      right. right.
+      assert (Hl' : f_lba (mark_bus_activity g now) = Some l).
+      { destruct (mark_bus_activity_lba g now) as [-> _]. change (f_lba g) with (f_lba f). rewrite El. f_equal. lia. }
+      destruct (mark_state g now) as [Hs _].
+      split; [apply HInv; [rewrite Hs; exact I|rewrite Hs; discriminate|rewrite Hl'; discriminate]|].
+      split; [unfold mu_A; rewrite Hs, Es; cbn; lia|]. exists l. split; [exact Hl'|lia].
+    + destruct b; [specialize (Hb eq_refl); discriminate Hb|]. cbn [orb] in E0.
+      unfold check_for_bus_activity in E0. cbn [w_rx note length] in E0.
+      destruct (Nat.ltb_spec (f_pending g) 0) as [C|_]; [lia|].
+      unfold dispatch in E0. cbn [g set_st f_state kind_of poll_dispatch] in E0. fold g in E0.
+      pose proof (fun Hw Hr => do_listen_token_silent A g now _ f' w' None 0 eq_refl Hw Hr E0) as Ho. specialize (Ho eq_refl eq_refl).
+      assert (La : match w_tx w' with Some wire => f_lba f' = Some (now + dur (f_p f) (length wire))
+                                    | None => f_lba f' = Some (gv now (f_lba f)) \/ rst now f' end).
+      { destruct (poll_bk A ops now f _ apps f' _ apps' c E) as (_ & _ & _ & L & _). cbn [tx tx_busy rx] in L.
+        destruct (w_tx w'); [tauto|]. destruct L as [L|[Rs _]]; [|right; exact Rs].
+        destruct (f_lba f) as [l|] eqn:El.
+        - left. unfold lba_moves in L. cbn [gv] in *. destruct L as [-> | [-> | ([M|M] & ->)]]; try reflexivity; [discriminate M|contradiction M; reflexivity].
+        - destruct (poll_online_lba_some A ops now f _ apps f' _ apps' c E Hc Es El) as [Hn|Rs]; [|right; exact Rs].
+          left. unfold lba_moves in L. cbn [gv] in *.
+          destruct L as [L | [-> | ([M|M] & ->)]]; [contradiction|reflexivity|discriminate M|contradiction M; reflexivity]. }
+      assert (Hmu : mu_A f = 2%nat) by (unfold mu_A; rewrite Es; reflexivity).
+      assert (Hll : f_lba f = Some (gv now (f_lba f)) \/ (f_lba f = None /\ gv now (f_lba f) = now))
+        by (destruct (f_lba f); [left; reflexivity|right; split; reflexivity]).
+      apply (Hout g w' (gv now (f_lba f)) I ltac:(discriminate) eq_refl eq_refl Hll La eq_refl); [| |exact Ho].
+      * rewrite Hmu. cbn. lia.
+      * rewrite Hmu. cbn. intros C. discriminate C.
+  - (* ListenToken *)
+    assert (Hsome : exists l, f_lba f = Some l).
+    { destruct (f_lba f) as [l|]; [exists l; reflexivity|]. specialize (Hl eq_refl). discriminate Hl. }
+    destruct Hsome as [l El].
+    destruct (lba_after f now b apps f' o apps' c l E Hb El) as [_ La].
+    destruct (silent_body f now b apps f' o apps' c E Hc ltac:(rewrite Es; reflexivity) Hb) as [[Hp [-> Ht]]|[_ [_ [w' [Hd Ht]]]]].
+    + left. unfold predicted in Hp. rewrite El in Hp. apply Z.leb_le in Hp. rewrite El. cbn [gv].
+      pose proof (bv_slot _ _ R) as Hsl. rewrite Hp0 in Hsl.
+      destruct (mark_state f now) as [Hs _]. destruct (mark_bus_activity_lba f now) as [Hml _]. rewrite El in Hml.
+      assert (Hl' : f_lba (mark_bus_activity f now) = Some l) by (rewrite Hml; f_equal; lia).
+      split; [lia|]. split; [apply HInv; [rewrite Hs, Es; exact I|rewrite Hs, Es; discriminate|rewrite Hl'; discriminate]|].
+      split; [unfold mu_A; rewrite Hs; reflexivity|exact Hl'].
+    + unfold dispatch in Hd. rewrite Es in Hd. cbn [kind_of poll_dispatch] in Hd.
+      pose proof (fun Hw Hr => do_listen_token_silent A f now _ f' w' sr cc Es Hw Hr Hd) as Ho. specialize (Ho eq_refl eq_refl).
+      apply (Hout f w' l ltac:(rewrite Es; exact I) ltac:(rewrite Es; discriminate) eq_refl eq_refl (or_introl El) La Ht);
+        [unfold mu_A; lia|intros _; exact Es|exact Ho].
+  - (* ActiveIdle *)
+    assert (Hsome : exists l, f_lba f = Some l).
+    { destruct (f_lba f) as [l|]; [exists l; reflexivity|]. specialize (Hl eq_refl). discriminate Hl. }
+    destruct Hsome as [l El].
+    destruct (lba_after f now b apps f' o apps' c l E Hb El) as [_ La].
+    destruct (silent_body f now b apps f' o apps' c E Hc ltac:(rewrite Es; reflexivity) Hb) as [[Hp [-> Ht]]|[_ [_ [w' [Hd Ht]]]]].
+    + left. unfold predicted in Hp. rewrite El in Hp. apply Z.leb_le in Hp. rewrite El. cbn [gv].
+      pose proof (bv_slot _ _ R) as Hsl. rewrite Hp0 in Hsl.
+      destruct (mark_state f now) as [Hs _]. destruct (mark_bus_activity_lba f now) as [Hml _]. rewrite El in Hml.
+      assert (Hl' : f_lba (mark_bus_activity f now) = Some l) by (rewrite Hml; f_equal; lia).
+      split; [lia|]. split; [apply HInv; [rewrite Hs, Es; exact I|rewrite Hs, Es; discriminate|rewrite Hl'; discriminate]|].
+      split; [unfold mu_A; rewrite Hs; reflexivity|exact Hl'].
+    + unfold dispatch in Hd. rewrite Es in Hd. cbn [kind_of poll_dispatch] in Hd.
+      pose proof (fun Hw Hr => do_active_idle_silent A f now _ f' w' sr nps cc Es Hw Hr Hd) as Ho. specialize (Ho eq_refl eq_refl).
+      apply (Hout f w' l ltac:(rewrite Es; exact I) ltac:(rewrite Es; discriminate) eq_refl eq_refl (or_introl El) La Ht);
+        [unfold mu_A; lia|intros _; exact Es|exact Ho].
+Qed.
+
+End SilentPolls.
